@@ -131,6 +131,20 @@ fn family(q: &QLang) -> Vec<Pat> {
                     }
                 }
             }
+            // an alternation whose branches accept the SAME node under different capture names (two distinct bindings per node)
+            if i == j && i < 5 {
+                let alts = vec![rename_caps(c1.clone(), "a"), rename_caps(c1.clone(), "c")];
+                for mask in 0..4u8 {
+                    let mut p = root.clone();
+                    p.children.push(Elem { anchor_before: mask & 1 != 0, alts: alts.clone() });
+                    p.anchor_end = mask & 2 != 0;
+                    out.push(p);
+                }
+                let mut p = root.clone();
+                p.children.push(Elem { anchor_before: false, alts: alts.clone() });
+                p.children.push(Elem { anchor_before: false, alts: vec![rename_caps(plain[0].clone(), "b")] });
+                out.push(p);
+            }
             // quantifier on the second child
             if i < 4 && j < 4 { for qn in [Quant::Opt, Quant::Star, Quant::Plus] {
                 let mut p = root.clone();
